@@ -130,13 +130,22 @@ def injected(inj: Injector):
         if isinstance(file, (str, os.PathLike)) and inj._mine(file) and any(c in mode for c in "wax+"):
             f = inj.op(f"open({mode})", file, lambda: b_open(file, mode, *a, **kw))
             return TornFile(f, file)
+        if isinstance(file, (str, os.PathLike)) and inj._mine(file) and not getattr(inj, "in_read_text", False):
+            # a plain open() for reading is an operation too (the input may be read this way instead of Path.read_text)
+            return inj.op(f"open({mode})", file, lambda: b_open(file, mode, *a, **kw))
         return b_open(file, mode, *a, **kw)
 
     def wrap_path(name: str) -> Any:
         real = saved[name]
 
         def w(self: Path, *a: Any, **kw: Any) -> Any:
-            return inj.op(name, self, lambda: real(self, *a, **kw))
+            def do() -> Any:
+                inj.in_read_text = name == "read_text"   # its inner io.open is the same operation, not a second one
+                try:
+                    return real(self, *a, **kw)
+                finally:
+                    inj.in_read_text = False
+            return inj.op(name, self, do)
         return w
 
     try:
